@@ -46,7 +46,7 @@ def analyse(program):
         self_box = hb[1][1] if 1 in hb else None
         name = short(fn.path)
         rules = [Teardown(kind, self_box), Borrows(), Gate(kind, self_box), Counters(kind, self_box, fn),
-                 Kill(kind, self_box, fn.path), Verdict(closures, fn), Trace(closures, P), Adaptors(closures), TableOps(), GroupPhases()]
+                 Kill(kind, self_box, fn.path), Verdict(closures, fn), Trace(closures, P), Adaptors(closures), TableOps(closures), GroupPhases()]
         if fn is adopt:
             rules.append(AdoptSchema("adopt", hb))
         elif fn is unadopt:
